@@ -110,3 +110,76 @@ func VerifH_C07_term() {
 	verifReach("terminated")
 	verifAssert(len(out) <= len(seq)+64*2, "output growth bounded by the action budget")
 }
+
+// verifCtxSubtable builds a contextual subtable of the given format (0..5 = sequence context 1/2/3, chained
+// context 1/2/3) that matches the glyph sequence `in` (glyph ids 1..3; class of glyph g is g) with the given
+// nested actions and, for the chained formats, no backtrack / lookahead.
+func verifCtxSubtable(format int, in []glyph.ID, actions []SeqLookup) Subtable {
+	cls := classdef.Table{1: 1, 2: 2, 3: 3}
+	rest := in[1:]
+	var restCls []uint16
+	var sets []coverage.Set
+	for _, g := range rest {
+		restCls = append(restCls, uint16(g))
+	}
+	for _, g := range in {
+		sets = append(sets, coverage.Set{g: true})
+	}
+	switch format {
+	case 0:
+		return &SeqContext1{Cov: coverage.Table{in[0]: 0}, Rules: [][]*SeqRule{{{Input: rest, Actions: actions}}}}
+	case 1:
+		rules := make([][]*ClassSeqRule, 4)
+		rules[in[0]] = []*ClassSeqRule{{Input: restCls, Actions: actions}}
+		return &SeqContext2{Cov: coverage.Table{in[0]: 0}, Input: cls, Rules: rules}
+	case 2:
+		return &SeqContext3{Input: sets, Actions: actions}
+	case 3:
+		return &ChainedSeqContext1{Cov: coverage.Table{in[0]: 0}, Rules: [][]*ChainedSeqRule{{{Input: rest, Actions: actions}}}}
+	case 4:
+		rules := make([][]*ChainedClassSeqRule, 4)
+		rules[in[0]] = []*ChainedClassSeqRule{{Input: restCls, Actions: actions}}
+		return &ChainedSeqContext2{Cov: coverage.Table{in[0]: 0}, Backtrack: classdef.Table{}, Input: cls, Lookahead: classdef.Table{}, Rules: rules}
+	default:
+		return &ChainedSeqContext3{Input: sets, Actions: actions}
+	}
+}
+
+// VerifH_C07_scratch: nested contextual lookups share the Context's scratch space with their parent rule.  An
+// outer rule of every contextual format over two or three glyphs runs an inner contextual lookup (every format) at a
+// later position and then a single substitution at an earlier position; the glyph sequence contains the
+// pattern twice, so that the second match (and a second Apply on the same Context) reuses the scratch space.
+func VerifH_C07_scratch() {
+	outerFmt := verifChoose("outer", 6)
+	innerFmt := verifChoose("inner", 6)
+	n := 2 + verifChoose("outerlen", 2)
+	in := []glyph.ID{1, 2, 3}[:n]
+	i1, i0 := verifU16("seq1"), verifU16("seq0")
+	verifAssume(int(i1) < n && int(i0) < n)
+	// lookup 1: single substitution +10; lookup 2: inner contextual lookup on the glyph at position i1 which
+	// substitutes that glyph (+20) through lookup 3
+	plus := func(d glyph.ID) *LookupTable {
+		return &LookupTable{Meta: &LookupMetaInfo{LookupType: 1}, Subtables: []Subtable{&Gsub1_1{Cov: coverage.Set{1: true, 2: true, 3: true}, Delta: d}}}
+	}
+	innerIn := in[i1:]
+	if len(innerIn) > 2 {
+		innerIn = innerIn[:2]
+	}
+	inner := &LookupTable{Meta: &LookupMetaInfo{LookupType: 5}, Subtables: []Subtable{verifCtxSubtable(innerFmt, innerIn, []SeqLookup{{SequenceIndex: 0, LookupListIndex: 3}})}}
+	outer := &LookupTable{Meta: &LookupMetaInfo{LookupType: 5}, Subtables: []Subtable{verifCtxSubtable(outerFmt, in,
+		[]SeqLookup{{SequenceIndex: i1, LookupListIndex: 2}, {SequenceIndex: i0, LookupListIndex: 1}})}}
+	ll := LookupList{outer, plus(10), inner, plus(20)}
+	var seq []glyph.Info
+	for rep := 0; rep < 2; rep++ {
+		for _, g := range in {
+			seq = append(seq, glyph.Info{GID: g, Text: []rune{rune('a' + len(seq))}, Advance: 100})
+		}
+	}
+	want := refShape(ll, nil, []LookupIndex{0}, seq)
+	ctx := NewContext(ll, nil, []LookupIndex{0})
+	got := ctx.Apply(refCopy(seq))
+	verifAssert(sameSeq(got, want), "scratch: both matches equal the reference")
+	got2 := ctx.Apply(refCopy(seq))
+	verifAssert(sameSeq(got2, want), "scratch: a second Apply on the same Context equals the reference")
+	verifReach("applied")
+}
